@@ -25,9 +25,6 @@
 ; for DER input; the converse derParse(der(d)) = d does NOT hold for values holding an asn1.RawValue, whose Class, Tag and
 ; Bytes are filled by parsing, so no such axiom is stated)
 (declare-fun derParse (Bytes) Deep)
-; an OBJECT IDENTIFIER value encoding/asn1 can marshal: at least two arcs, none negative, first arc 0..2, second below 40
-; unless the first is 2
-(define-fun-rec olen ((o OidV)) Int (ite ((_ is onil) o) 0 (+ 1 (olen (oinit o)))))
-(define-fun-rec onn ((o OidV)) Bool (ite ((_ is onil) o) true (and (>= (olast o) 0) (onn (oinit o)))))
-(define-fun-rec oat ((o OidV) (i Int)) Int (ite ((_ is onil) o) (- 1) (ite (= (olen o) (+ i 1)) (olast o) (oat (oinit o) i))))
-(define-fun oidOk ((o OidV)) Bool (and (>= (olen o) 2) (onn o) (<= (oat o 0) 2) (=> (< (oat o 0) 2) (< (oat o 1) 40))))
+; an OBJECT IDENTIFIER value encoding/asn1 can marshal (defined in oidok.smt2, which only the table lemmas load: the
+; recursive definitions make the solvers give up early on unrelated goals)
+(declare-fun oidOk (OidV) Bool)
